@@ -189,6 +189,8 @@ type Exec struct {
 	PlanByStmt           map[string]string // statement text -> plan shape (last execution)
 	StmtCount            int
 	Txns                 []*TxnRec
+	Late                 []TableSpec  // tables a "ddl" op may create (crashsim)
+	Created              []*TableSpec // tables that exist (set-up + acknowledged ddl ops)
 }
 
 func NewExec(s *SUT, m *Model) *Exec {
@@ -260,6 +262,9 @@ func (e *Exec) run1(i int, op Op) OpOutcome {
 		sl := e.Slots[op.T]
 		if sl == nil {
 			return OpOutcome{"skipped", "no txn"}
+		}
+		if e.Late != nil && e.M.Table(op.Stmt.Table) == nil {
+			return OpOutcome{"skipped", "table not created (minimised history)"}
 		}
 		var before map[int32]int32
 		if e.PinCheck {
@@ -373,10 +378,44 @@ func (e *Exec) run1(i int, op Op) OpOutcome {
 			return e.fail(i, pi)
 		}
 		return OpOutcome{"ok", ""}
+	case "ddl":
+		// CREATE TABLE in the middle of the history (its own transaction through the public entry point)
+		if e.open() > 0 {
+			return OpOutcome{"skipped", "open transactions"}
+		}
+		if op.T < 0 || op.T >= len(e.Late) || e.M.Table(e.Late[op.T].Name) != nil {
+			return OpOutcome{"skipped", "no such late table / exists"}
+		}
+		ts := &e.Late[op.T]
+		tr := &TxnRec{ID: -1, BeginPos: tracePos(), EndPos: -1}
+		e.Txns = append(e.Txns, tr)
+		disk.SimMark("commit-called", -1, 1)
+		disk.SimMark("ddl-begin", int64(1000+op.T), 0)
+		res := e.S.AutoSQL(createTableSQL(ts))
+		disk.SimMark("ddl-end", int64(1000+op.T), 0)
+		if res.Panic != nil {
+			return e.fail(i, res.Panic)
+		}
+		if res.Err != nil {
+			disk.SimMark("commit-failed", -1, 0)
+			tr.EndPos = tracePos()
+			return OpOutcome{"error", res.Err.Error()}
+		}
+		e.M.AddTable(ts.Name, ts.Cols)
+		e.Created = append(e.Created, ts)
+		e.Commits++
+		e.Snaps = append(e.Snaps, e.M.Snapshot())
+		disk.SimMark("commit-returned", -1, 0)
+		tr.Committed = true
+		tr.EndPos = tracePos()
+		return OpOutcome{"ok", ""}
 	case "auto":
 		// single-statement transaction through the public entry point (request manager, retries)
 		if e.open() > 0 {
 			return OpOutcome{"skipped", "open transactions"}
+		}
+		if e.Late != nil && e.M.Table(op.Stmt.Table) == nil {
+			return OpOutcome{"skipped", "table not created (minimised history)"}
 		}
 		mt := e.M.Begin()
 		wrote := int64(0)
